@@ -3,6 +3,7 @@ CONSTANTS
   MaxPieces = 3
   MaxPhrase = 3
   MaxTmpl = 0
+  MaxDeep = 0
   Hosts = {"out", "assign"}
   EmitAll = TRUE
 INVARIANTS Emit
